@@ -97,12 +97,12 @@ func VerifC04_Converge(h *zz.H) {
 	c := cache.New([]string{c05DevA})
 	s, _ := NewServer(c)
 	c.SetClient(s.Update)
-	pre := h.Range("preexisting", 0, 1) == 1
+	pre := h.Range("preexisting", h.Param("PREMIN", 0), 1) == 1
 	if pre {
 		c.GnmiUpdate(c04Upd("a", 1))
 	}
 	q := [][]string{{}, {"a"}, {"*"}, {"zz"}, {"b"}}[h.Range("subscription", 0, h.Param("SUBS", 4))]
-	sl := &pb.SubscriptionList{Mode: pb.SubscriptionList_STREAM, Prefix: &pb.Path{Target: c05DevA}, UpdatesOnly: h.Range("updates_only", 0, 1) == 1}
+	sl := &pb.SubscriptionList{Mode: pb.SubscriptionList_STREAM, Prefix: &pb.Path{Target: c05DevA}, UpdatesOnly: h.Range("updates_only", 0, h.Param("UOMAX", 1)) == 1}
 	p := &pb.Path{}
 	for _, e := range q {
 		p.Elem = append(p.Elem, &pb.PathElem{Name: e})
